@@ -14,8 +14,8 @@ import datetime as dt
 
 DIRECTIONS = ["up", "down", "left", "right"]
 
-PALETTE3 = ["#222", "#fff", "#f00", "#0a3", "#ABC", "#9cf"]
-PALETTE6 = ["#1f77b4", "#ff7f0e", "#2ca02c", "#D62728", "#9467BD", "#8c564b", "#e377c2"]
+PALETTE3 = ["#222", "#fff", "#f00", "#0a3", "#ABC", "#9cf", "#00f", "001"]
+PALETTE6 = ["#1f77b4", "#ff7f0e", "#2ca02c", "#D62728", "#9467BD", "#8c564b", "#e377c2", "#0000FF", "000a0b", "#00ff00"]
 
 
 def _by_uid_colour(d):
